@@ -584,7 +584,12 @@ def check_object(ctx, rng, obj, ref, src, cid):
                 # float coefficients: once magnitudes leave the 53-bit range the arithmetic rounds, and an identically zero function can be
                 # left with a residue that is tiny relative to the object's own scale. Judge only a decisively non-zero object.
                 residue = True
-                for _ in range(3):
+                # (a) coefficients: a residue of rounding is tiny next to the coefficients that did not cancel (those of the denominator)
+                ncoef = [abs(float(m[0])) for m in getattr(getattr(obj, 'numer', obj), 'args', []) if m]
+                dcoef = [abs(float(m[0])) for m in getattr(getattr(obj, 'denom', None), 'args', []) if m] or [1.0]
+                coefficient_residue = bool(ncoef) and max(ncoef) <= 1e-6 * max(1.0, max(dcoef))
+                # (b) values: tiny at random points
+                for _ in range(0 if coefficient_residue else 3):
                     env = {v: Fr(rng.randint(-9, 9), rng.randint(1, 3)) for v in VARS}
                     try:
                         val = eval_object(obj, env)
@@ -601,6 +606,12 @@ def check_object(ctx, rng, obj, ref, src, cid):
     except Exception as e:
         ctx.note_raised(e, 'zero-test')
     # values at random rational points
+    if iszero and has_float_coefficient(obj):
+        ncoef = [abs(float(m[0])) for m in getattr(getattr(obj, 'numer', obj), 'args', []) if m]
+        dcoef = [abs(float(m[0])) for m in getattr(getattr(obj, 'denom', None), 'args', []) if m] or [1.0]
+        if ncoef and max(ncoef) <= 1e-6 * max(1.0, max(dcoef)):
+            ctx.count('float_rounding_residues_in_value_checks_recorded_not_judged')
+            return
     variables = sorted(ref[0].variables() | ref[1].variables() | set(VARS))
     npts = 0
     for attempt in range(8):
